@@ -262,8 +262,15 @@ def cli_case(arg):
         cenv = {}
         if idx % 2 == 1:
             cenv = {"GIT_CONFIG_COUNT": "1", "GIT_CONFIG_KEY_0": "sizer.threshold", "GIT_CONFIG_VALUE_0": rng.choice(["0", "30", "5", "0.5"])}
+        noise = [["-v"], ["--critical"], ["--no-verbose"], ["--threshold=7"], ["--verbose"], ["--threshold=0.25"]]
         for ts in ths:
             spell = {"0": ["--verbose"], "1": rng.choice([["--threshold=1"], ["--no-verbose"]]) if cenv else [], "30": ["--critical"]}.get(ts, ["--threshold=" + ts])
+            if spell and rng.random() < 0.5:
+                # the threshold that counts is the one named last; earlier (also repeated) threshold options are noise
+                pre = [a for o in rng.sample(noise, rng.randint(1, 3)) for a in o]
+                if rng.random() < 0.5:
+                    pre = spell + pre        # the same flag given before, then something else, then again
+                spell = pre + spell
             r = R.sizer(sz, gitdir, spell + ["--no-progress"], env=cenv, tmpdir=d)
             out["evals"] += 1
             if r.rc:
